@@ -71,6 +71,10 @@ def SUB(k, n):
             LOG.append(("SUB", k, _plain(got)))
             if isinstance(got, int):
                 total += got
+    except BaseException as e:
+        # what the sub-generator is left by (thrown into it, or GeneratorExit when it is closed) is its business
+        LOG.append(("SUB-exc", k, type(e).__name__))
+        raise
     finally:
         LOG.append(("SUB-end", k))
     return total
